@@ -434,8 +434,9 @@ def r22(ctx, R):
                 other = [x for x in sides if not src(x).endswith('.rcs')]
                 st = C.stmt_of(n)
                 if len(rcs) == 1 and len(other) == 1 and isinstance(
-                        other[0], ast.Name) and not C.guarding_ifs(st, lp):
-                    grows.append((st, 'setop', other[0].id))
+                        other[0], (ast.Name, ast.Attribute)) and not \
+                        C.guarding_ifs(st, lp):
+                    grows.append((st, 'setop', src(other[0])))
         if len(grows) != 1:
             raise model.AnalysisError(
                 'R2.2: the bookkeeping of multi_group_rcs is not one of the '
@@ -467,6 +468,33 @@ def r22(ctx, R):
                                      'intersection_update',
                                      'difference_update'):
                     replaced.append(n)
+        if '.' in seen:
+            # the seen-set kept in an attribute of the request-wide
+            # context: no other function of the program stores into it but
+            # the constructor's empty set
+            at = seen.rsplit('.', 1)[1]
+            for g_ in ctx.prog.funcs:
+                if g_ is f:
+                    continue
+                for n in own_nodes(g_.node):
+                    tg = []
+                    if isinstance(n, ast.Assign):
+                        tg = n.targets
+                    elif isinstance(n, ast.AugAssign):
+                        tg = [n.target]
+                    elif isinstance(n, ast.Call) and isinstance(
+                            n.func, ast.Attribute) and isinstance(
+                                n.func.value, ast.Attribute) and \
+                            n.func.value.attr == at and n.func.attr in (
+                                'clear', 'discard', 'remove', 'pop',
+                                'intersection_update', 'difference_update'):
+                        replaced.append(n)
+                    for t in tg:
+                        if isinstance(t, ast.Attribute) and t.attr == at \
+                                and not (g_.name == '__init__' and isinstance(
+                                    n, ast.Assign) and src(n.value) in (
+                                        'set()', 'frozenset()')):
+                            replaced.append(n)
         okm = bool(accum) and not replaced and gg.dominates(
             lp, C.stmt_of(mer[0])) and kind != 'loop-weakened'
         # every group contributes its classes to the seen-set
